@@ -10,6 +10,8 @@ Real code driven here (all from /repo's working tree, nothing edited):
             per file operation; with backend "fork": really forked processes on a temporary directory, real
             files and real lockf, the schedule enforced through pipes
   addr      real EtherCat.find_free_address (scripted randint) -> real ParallelEtherCat.get_mbx_lock
+The three defects this check found (creation window, tasks of one process, upper end of the address range) are
+repaired in /repo; their former counterexample schedules are now ordinary cases that must pass.
 Each observable trace is compared exactly with the Lean model (Ebv.Mbx via Drivers/C15.lean); the property text
 is evaluated on the implementation's trace by the oracles below, independent of the model."""
 import asyncio
@@ -32,42 +34,33 @@ DRIVER = "Drivers/C15.lean"
 THEOREMS = [
     "Ebv.C15.counter_next", "Ebv.C15.counter_cycle",
     "Ebv.C15.inproc_serialised", "Ebv.C15.inproc_counted",
-    "Ebv.C15.crossproc_serialised_refuted", "Ebv.C15.same_process_witness", "Ebv.C15.crossproc_serialised_partial",
-    "Ebv.C15.creation_window_safe_refuted", "Ebv.C15.creation_window_witness", "Ebv.C15.creation_window_safe_partial",
-    "Ebv.C15.addr_accepted_refuted", "Ebv.C15.addr_accepted_partial",
+    "Ebv.C15.crossproc_serialised", "Ebv.C15.creation_window_safe", "Ebv.C15.holder_can_proceed",
+    "Ebv.C15.addr_accepted",
+    "Ebv.C15.same_process_witness_now", "Ebv.C15.creation_window_witness_now",
 ]
 TRUSTED = ["hand-written model Ebv.Mbx of MailboxLock / LockFile / ParallelMailboxLock, tied by exact trace correspondence",
-           "asyncio.Lock semantics (FIFO waiters, release wakes the first) and POSIX semantics of O_EXCL, lockf (per-process "
-           "record locks), pread, pwrite as modelled; the emulation in harness/vh/props/c15.py is cross-checked against the "
-           "kernel on the forked-process cases",
+           "asyncio.Lock semantics (FIFO waiters, release wakes the first) and POSIX semantics of O_EXCL, ftruncate, lockf "
+           "(per-process record locks), pread, pwrite as modelled; the emulation in harness/vh/props/c15.py is cross-checked "
+           "against the kernel on the forked-process cases",
            "mbxMod/mbxStart/addrLo/addrHi regenerated from /repo into Ebv.Generated.Consts"]
-ASSUMPTIONS = ["no task cancellation while waiting for the lock; a process is single threaded",
+ASSUMPTIONS = ["no task cancellation while waiting for a lock; a process is single threaded",
                "one lock object per (process, terminal): tasks of a process share it, as Terminal.mbx_lock does",
                "the lock file is not removed while in use (removal belongs to C23)",
-               "random.randint(a, b) may return b"]
+               "random.randint(a, b) may return b",
+               "liveness is claimed only as: the holder of the record lock is never blocked (holder_can_proceed); fair "
+               "scheduling of processes and tasks is the environment's"]
 RULE = ("cycle: c0 in 0..7 x n<=40; inproc: 1-4 tasks x 1-2 critical sections x 0-3 exchanges, random batched schedules; "
-        "terminal: 2-3 tasks x 1-3 SDO transfers with random yields; cross: 1-3 processes x 1-2 tasks, file absent or "
-        "initialised, random (process, task) schedules + every interleaving of the first four steps of two processes on an "
-        "absent file (thorough: every interleaving of all eight steps of two processes on an initialised file); fork: fixed "
-        "witness and control schedules; non-trivial = at least two users sent a message")
-
-KNOWN_CLASSES = ("creation-window", "same-process-tasks", "addr-upper-bound")
+        "terminal: 2-3 tasks x 1-3 SDO transfers with random yields; cross: 1-3 processes x 1-3 tasks, file absent, full or "
+        "short, terminal byte anywhere in the inclusive range, random (process, task) schedules + every interleaving of the "
+        "first four steps of two processes on an absent file (thorough: every interleaving of all eight steps of two "
+        "processes on a present file); fork: the former counterexample schedules and controls on really forked processes; "
+        "addr: both ends of terminal_addr_range and random members; non-trivial = at least two users sent a message")
 
 
 def succ(c):
     """the cycle of the property text: 0 -> 1, 1 -> 2, ..., 6 -> 7, 7 -> 1"""
     return 1 if c in (0, 7) else c + 1
 
-
-def report(ctx, what, case, observed, cls):
-    """an oracle failure.  core keeps only the first 50 failures of a run for the verdict; failures of a known
-    class beyond the first few are therefore only counted, so that a failure outside the known classes is never
-    crowded out of that list"""
-    key = "oracle-fail:" + cls if cls else None
-    if key and ctx.stats[key] >= 4:
-        ctx.stats[key] += 1
-        return
-    ctx.require(False, what, case, observed, cls)
 
 
 # ----------------------------------------------------------------------------------------------------------
@@ -321,6 +314,13 @@ class EmuFS:
         self.fds[w.p, fd] = pos + len(data)
         return len(data)
 
+    def ftruncate(self, w, fd, n):
+        assert (w.p, fd) in self.fds
+        if len(self.data) < n:
+            self.data.extend(bytes(n - len(self.data)))
+        else:
+            del self.data[n:]
+
     def pread(self, w, fd, n, off):
         assert (w.p, fd) in self.fds
         return bytes(self.data[off:off + n])
@@ -362,6 +362,9 @@ class RealFS:
     def write(self, w, fd, data):
         return os.write(fd, data)
 
+    def ftruncate(self, w, fd, n):
+        return os.ftruncate(fd, n)
+
     def pread(self, w, fd, n, off):
         return os.pread(fd, n, off)
 
@@ -390,6 +393,9 @@ class _OsProxy:
     def write(self, fd, data):
         return _tls.worker.op_write(fd, data)
 
+    def ftruncate(self, fd, n):
+        return _tls.worker.op_ftruncate(fd, n)
+
     def pread(self, fd, n, off):
         return _tls.worker.op_pread(fd, n, off)
 
@@ -412,7 +418,7 @@ class _FcntlProxy:
 async def _gate_sleep(delay=0, result=None):
     """`await sleep(0)` of the lock's retry loop: a suspension point of the task"""
     w = _tls.worker
-    await w.gate(w.current)
+    await w.gate(w.me())
 
 
 class Patched:
@@ -436,7 +442,6 @@ class Worker:
         self.size, self.off = size, off
         self.events = []
         self.gates = {}
-        self.current = None      # task running since the last grant (None: LockFile.__init__)
         self.credit = False      # the step just granted has not yet performed its operation
         self.granted = False
         self.quitting = False
@@ -460,7 +465,8 @@ class Worker:
             cmd = self.recv()
             if cmd[0] == "quit":
                 raise Quit()
-            if self.current is None or cmd[1] == self.current:
+            me = self.me()
+            if me is None or cmd[1] == me:
                 self.granted = True
                 return
             self.comm.send(["noop", []])
@@ -481,8 +487,17 @@ class Worker:
     def ev(self, tok):
         self.events.append(tok)
 
+    def me(self):
+        """the task that is running (None: the process is in LockFile.__init__)"""
+        try:
+            name = asyncio.current_task().get_name()
+        except RuntimeError:
+            return None
+        return int(name[1:]) if name.startswith("u") else None
+
     def who(self):
-        return f"{self.p}" if self.current is None else f"{self.p}.{self.current}"
+        me = self.me()
+        return f"{self.p}" if me is None else f"{self.p}.{me}"
 
     # -- file operations = scheduling points ---------------------------------------------------------------
     def op_open(self, fn, flags):
@@ -500,6 +515,11 @@ class Worker:
         self.sched_point()
         self.ev(f"w{self.p}")
         return self.fs.write(self, fd, data)
+
+    def op_ftruncate(self, fd, n):
+        self.sched_point()
+        self.ev(f"w{self.p}")
+        return self.fs.ftruncate(self, fd, n)
 
     def op_lockf(self, fd, cmd, length, start):
         self.sched_point()
@@ -571,13 +591,13 @@ class Worker:
             self.ev(f"!{self.p}:{type(ex).__name__}")
         ts = []
         if pl is not None:
-            ts = self.ts = [self.loop.create_task(self.user(t, secs, pl)) for t, secs in enumerate(self.tasks)]
+            ts = self.ts = [self.loop.create_task(self.user(t, secs, pl), name=f"u{t}")
+                            for t, secs in enumerate(self.tasks)]
         try:
             while True:
                 for _ in range(6):
                     await asyncio.sleep(0)
                 self.credit = False
-                self.current = -1
                 self.flush()
                 cmd = self.recv()
                 if cmd[0] == "quit":
@@ -587,7 +607,6 @@ class Worker:
                     self.comm.send(["noop", []])
                     continue
                 self.granted = self.credit = True
-                self.current = cmd[1]
                 f.set_result(None)
         finally:
             for t in ts:
@@ -790,23 +809,6 @@ def model_view(out):
     return " ".join(t for t in toks.split() if t[0] not in "><!") + " | " + fin
 
 
-def in_creation_window(case):
-    """the file is absent and another process runs between the creator's O_EXCL open and its write"""
-    if case["file"] is not None or not case["sched"]:
-        return False
-    creator = case["sched"][0][0]
-    for p, _ in case["sched"][1:]:
-        if p == creator:
-            return False
-        return True
-    return False
-
-
-def same_process_tasks(case):
-    """some process has two tasks that use the mailbox"""
-    return any(sum(1 for secs in tasks if secs) >= 2 for tasks in case["tasks"])
-
-
 def oracle_cross(ctx, case, out):
     """the property text on the implementation's trace: no two users inside at once, every request answered
     before the next, counters consecutive across all users, nobody fails, every counter read is valid"""
@@ -826,6 +828,8 @@ def oracle_cross(ctx, case, out):
         elif k == "<":
             if inside == tok[1:]:
                 inside = None
+        elif k == "R" and tok.endswith("!"):
+            pass        # short read: the counter is 0, checked on the message that follows
         elif k == "R" and "=" in tok:
             v = int(tok.split("=")[1], 16 if len(tok.split("=")[1]) > 3 else 10)
             if not 0 <= v <= 7:
@@ -843,13 +847,7 @@ def oracle_cross(ctx, case, out):
                 fails.append(("overlap", f"{tok[1:]} read a response while request of {pend} is out"))
             pend = None
     for kind, text in fails:
-        if kind == "failed:ValueError" and in_creation_window(case):
-            cls = "creation-window"
-        elif kind in ("overlap", "counter", "failed:TypeError") and same_process_tasks(case):
-            cls = "same-process-tasks"
-        else:
-            cls = None
-        report(ctx, f"cross-process exchanges not serialised/counted ({kind}): {text}", case, out, cls)
+        ctx.require(False, f"cross-process exchanges not serialised/counted ({kind}): {text}", case, out, None)
     return fails
 
 
@@ -895,9 +893,8 @@ def run_addr(case):
 def oracle_addr(ctx, case, out):
     from ebpfcat.ebpfcat import ParallelEtherCat
     lo, hi = ParallelEtherCat.terminal_addr_range
-    cls = "addr-upper-bound" if case["no"] == hi else None
-    if out != "ok":
-        report(ctx, f"address {case['no']} from randint({lo}, {hi}) is refused as a mailbox lock: {out}", case, out, cls)
+    ctx.require(out == "ok", f"address {case['no']} from randint({lo}, {hi}) is refused as a mailbox lock: {out}",
+                case, out, None)
 
 
 # ----------------------------------------------------------------------------------------------------------
@@ -953,21 +950,21 @@ def gen_terminal(rng):
 def gen_cross(rng):
     mode = rng.random()
     np_ = rng.choice([1, 2, 2, 2, 3, 3])
-    multi = mode < 0.2                      # some process with two mailbox tasks
+    multi = mode < 0.45                     # some process with two or three mailbox tasks
     tasks = []
     for p in range(np_):
-        nt = 2 if multi and (p == 0 or rng.random() < 0.3) else 1
+        nt = rng.choice([2, 2, 3]) if multi and (p == 0 or rng.random() < 0.3) else 1
         tasks.append([[rng.randrange(0, 3) for _ in range(rng.choice([1, 1, 2]))] for _ in range(nt)])
     size = rng.randrange(2, 7)
-    off = rng.randrange(0, size)
+    off = rng.randrange(0, size + 1)        # both ends of the address range
     absent = rng.random() < 0.4
     file = None
     if not absent:
-        file = [rng.randrange(0, 8) for _ in range(size)]
+        file = [rng.randrange(0, 8) for _ in range(size + 1 if rng.random() < 0.85 else rng.randrange(0, size + 1))]
     steps = sum(2 + sum(4 + 2 * n for n in secs) for ts in tasks for secs in ts)
     sched = []
     parts = [(p, t) for p, ts in enumerate(tasks) for t in range(len(ts))]
-    if absent and rng.random() < 0.6:       # the creator completes LockFile() first
+    if absent and rng.random() < 0.3:       # the creator completes LockFile() first
         c = rng.randrange(np_)
         sched += [[c, 0], [c, 0]]
     cur = rng.choice(parts)
@@ -988,7 +985,7 @@ def window_family():
             tail = []
             for _ in range(14):
                 tail += [[0, 0], [1, 0]]
-            out.append({"op": "cross", "size": 3, "off": 2, "file": None, "tasks": [[[1]], [[1]]],
+            out.append({"op": "cross", "size": 2, "off": 2, "file": None, "tasks": [[[1]], [[1]]],
                         "sched": acc + tail})
             return
         if a < 4:
@@ -1006,7 +1003,7 @@ def full_family():
 
     def rec(a, b, acc):
         if a == 8 and b == 8:
-            out.append({"op": "cross", "size": 2, "off": 0, "file": [7, 0], "tasks": [[[1]], [[1]]],
+            out.append({"op": "cross", "size": 1, "off": 0, "file": [7, 0], "tasks": [[[1]], [[1]]],
                         "sched": acc + [[0, 0], [1, 0]] * 8})
             return
         if a < 8:
@@ -1017,20 +1014,22 @@ def full_family():
     return out
 
 
-WITNESS_WINDOW = {"op": "cross", "backend": "fork", "size": 4, "off": 1, "file": None, "tasks": [[[1]], [[1]]],
-                  "sched": [[0, 0], [1, 0], [1, 0], [1, 0], [1, 0], [0, 0], [0, 0], [0, 0]]}
-WITNESS_SAMEPROC = {"op": "cross", "backend": "fork", "size": 4, "off": 1, "file": [0, 0, 0, 0], "tasks": [[[1], [1]]],
-                    "sched": [[0, 0], [0, 0], [0, 0], [0, 0], [0, 0], [0, 1], [0, 1], [0, 1], [0, 0], [0, 0], [0, 0],
-                              [0, 1], [0, 1]]}
+WITNESS_WINDOW = {"op": "cross", "backend": "fork", "size": 3, "off": 1, "file": None, "tasks": [[[1]], [[1]]],
+                  "sched": [[0, 0]] + [[1, 0]] * 8 + [[0, 0]] * 7}
+WITNESS_SAMEPROC = {"op": "cross", "backend": "fork", "size": 3, "off": 1, "file": [0, 0, 0, 0], "tasks": [[[1], [1]]],
+                    "sched": [[0, 0], [0, 0], [0, 0], [0, 0], [0, 0], [0, 1], [0, 1], [0, 1], [0, 0], [0, 0], [0, 0]]
+                    + [[0, 1]] * 7}
+WITNESS_LASTADDR = {"op": "cross", "backend": "fork", "size": 3, "off": 3, "file": None, "tasks": [[[1]], [[1], [1]]],
+                    "sched": [[0, 0], [1, 0], [0, 0], [1, 0]] + [[1, 1], [0, 0], [1, 0]] * 12}
 
 
 def fork_family():
-    good = {"op": "cross", "backend": "fork", "size": 4, "off": 1, "file": [0, 5, 0, 0], "tasks": [[[1]], [[2]]],
+    good = {"op": "cross", "backend": "fork", "size": 3, "off": 1, "file": [0, 5, 0, 0], "tasks": [[[1]], [[2]]],
             "sched": [[0, 0], [0, 0], [1, 0], [1, 0], [0, 0], [1, 0], [0, 0], [0, 0], [0, 0], [1, 0], [0, 0], [0, 0]]
             + [[1, 0]] * 8}
-    created = {"op": "cross", "backend": "fork", "size": 5, "off": 3, "file": None, "tasks": [[[1]], [[1]], [[1]]],
+    created = {"op": "cross", "backend": "fork", "size": 4, "off": 3, "file": None, "tasks": [[[1]], [[1]], [[1]]],
                "sched": [[0, 0], [0, 0]] + [[1, 0], [2, 0], [0, 0]] * 12}
-    return [dict(WITNESS_WINDOW), dict(WITNESS_SAMEPROC), good, created]
+    return [dict(WITNESS_WINDOW), dict(WITNESS_SAMEPROC), dict(WITNESS_LASTADDR), good, created]
 
 
 def nontrivial(case, out):
@@ -1073,9 +1072,6 @@ def run(ctx):
         for i, (c, out, line) in enumerate(zip(cases, outs, model)):
             body, verdict = model_split(line)
             same = ctx.agree(c["op"] + " trace", c, impl_view(c, out), body)
-            if i in known_fail and not same:
-                ctx.require(False, "failure inside a known class but the implementation differs from the model",
-                            c, out, None)
             if verdict == "ok" and i in known_fail and same:
                 ctx.require(False, "the property oracle fails where the model's checker accepts the same trace",
                             c, out, None)
@@ -1091,15 +1087,15 @@ def replay(ctx, case):
 
 LEVEL_TEXT = ("Lean 4 proofs over a hand-written model of lock.py: the counter sequence is 0,1,..,7,1,.. for any number of calls; "
               "for any number of tasks sharing a MailboxLock and every schedule (asyncio.Lock FIFO semantics) critical sections "
-              "never overlap, each request is answered before the next and counters are consecutive across all tasks. For the "
-              "lock file the full statements are REFUTED on concrete schedules (two tasks of one process are both inside; an opener "
-              "inside the create/initialise window fails with ValueError and keeps the lock; address = upper bound is refused); "
-              "proved instead: any number of processes with one mailbox task each on an initialised file, or on a file whose creator "
-              "finishes LockFile() first, are serialised and counted under every schedule of the file operations. Tied to /repo by "
-              "exact trace correspondence of the real classes (emulated file operations with per-process locks, plus forked "
-              "processes on real files for the witnesses).")
+              "never overlap, each request is answered before the next and counters are consecutive across all tasks. For the lock "
+              "file (after the three fix: commits): for any number of processes AND tasks per process, file present or absent, and "
+              "every schedule of file operations and tasks - including any activity between the creator's O_EXCL open and its "
+              "ftruncate - users are serialised, counted consecutively, read only valid counters and never fail; the holder of the "
+              "record lock can always proceed to its unlock; every address of the inclusive range is accepted and has a byte. Tied to "
+              "/repo by exact trace correspondence of the real classes (emulated file operations with per-process locks, plus "
+              "forked processes on real files for the former counterexample schedules).")
 LEVEL_NOTE = ("trusted: Lean kernel; hand transcription Ebv.Mbx validated (not verified) by differential traces; asyncio.Lock and POSIX "
-              "open/lockf/pread/pwrite semantics as modelled; no cancellation, no removal of the lock file (C23), one lock object per "
-              "process and terminal")
+              "open/ftruncate/lockf/pread/pwrite semantics as modelled; no cancellation, no removal of the lock file (C23), one lock "
+              "object per process and terminal; liveness only as non-blocking of the lock holder")
 TECHNIQUE = "Lean 4 invariants over schedules (induction) + refutation by evaluation on witness schedules + differential traces"
 DESIGN_REF = "§4 C15"
